@@ -1,81 +1,86 @@
-(* C05: proofs about the OBJ line-level model (Formats/Obj.v). *)
+(* C05: proofs about the OBJ line-level model (Formats/Obj.v).
+   Part A: on every valid (triangulated, in-range) line list the reader computes the direct semantics
+           [file_groups] and returns well-formed meshes.
+   Part B: on every well-formed mesh list the writer produces a valid line list whose direct semantics is the
+           observation of the meshes (induction over the mesh list, running v / vt / vn offsets as invariant).
+   Part C: the two headline theorems (write -> read, load -> save -> load) and the refutation witnesses. *)
 From Coq Require Import String.
 From PF Require Import Base.Bytes Formats.Obj.
+From Coq Require Import ZifyNat ZifyBool.
 Open Scope nat_scope.
 
 Definition read := read_gen cfg_full.
 
-(* ---------- concrete witnesses for the four repaired defects ---------- *)
-Definition t3 : list vec3 := [(0, 0, 0); (1, 0, 0); (0, 1, 0)]%N.
-Definition mesh_plain : mesh :=
-  {| m_name := ["a"%string]; m_idx := [0; 1; 2]; m_pos := t3; m_uv := []; m_nrm := []; m_mats := [] |}.
-Definition mesh_nrm : mesh :=
-  {| m_name := ["b"%string]; m_idx := [2; 1; 0]; m_pos := t3; m_uv := []; m_nrm := t3; m_mats := [] |}.
+(* ====================================================================================== *)
+(* generic list facts                                                                      *)
+(* ====================================================================================== *)
+Definition compact {A} (l : list (option A)) : list A := flat_map opt_list l.
+Definition is_some {A} (o : option A) : bool := match o with Some _ => true | None => false end.
 
-Lemma shared_offset_refuted :
-  wf_list [mesh_plain; mesh_nrm] = true /\
-  (exists ls, write_pinned None [mesh_plain; mesh_nrm] = Ok ls /\ read ls = Crash) /\
-  (exists ls gs, write None [mesh_plain; mesh_nrm] = Ok ls /\ read ls = Ok (gs, []) /\
-                 map obs gs = map obs_written [mesh_plain; mesh_nrm]).
+Lemma compact_app {A} (a b : list (option A)) : compact (a ++ b) = compact a ++ compact b.
+Proof. apply flat_map_app. Qed.
+Lemma compact_length_le {A} (l : list (option A)) : length (compact l) <= length l.
+Proof. induction l as [|[x|] l IH]; simpl; lia. Qed.
+Lemma compact_full {A} (l : list (option A)) : length (compact l) = length l -> map Some (compact l) = l.
 Proof.
-  split; [reflexivity|]. split.
-  - eexists. split; [vm_compute; reflexivity|]. vm_compute. reflexivity.
-  - eexists. eexists. split; [vm_compute; reflexivity|]. split; vm_compute; reflexivity.
+  induction l as [|[x|] l IH]; simpl; intros H; auto.
+  - f_equal. apply IH. lia.
+  - pose proof (compact_length_le l). lia.
+Qed.
+Lemma compact_full_eqb {A} (l : list (option A)) : (length (compact l) =? length l) = forallb is_some l.
+Proof.
+  induction l as [|[x|] l IH]; simpl; auto.
+  pose proof (compact_length_le l). apply Nat.eqb_neq. lia.
+Qed.
+Lemma nth_error_nth_map {A} (l : list A) p : nth_error l p = nth p (map Some l) None.
+Proof. revert p. induction l; destruct p; simpl; auto. Qed.
+Lemma nth_map_nth_error {A B} (f : A -> B) l p x d : nth_error l p = Some x -> nth p (map f l) d = f x.
+Proof. revert p. induction l; destruct p; simpl; intros H; try discriminate; auto. congruence. Qed.
+Lemma nth_error_app_some {A} (l e : list A) p x : nth_error l p = Some x -> nth_error (l ++ e) p = Some x.
+Proof. intros H. rewrite nth_error_app1; auto. apply nth_error_Some. congruence. Qed.
+
+(* an attribute column kept only when complete: what [to_mesh] does under [drop_partial] *)
+Lemma kept_nth {A} (col : list (option A)) p :
+  nth_error (keep_full true (length col) (compact col)) p
+  = if forallb is_some col then nth p col None else None.
+Proof.
+  unfold keep_full. rewrite compact_full_eqb. destruct (forallb is_some col) eqn:E.
+  - rewrite nth_error_nth_map, compact_full; auto.
+    apply Nat.eqb_eq. rewrite compact_full_eqb. exact E.
+  - destruct p; reflexivity.
 Qed.
 
-Definition c1 (v : Z) : corner := (v, None, None).
-Definition quad : list line := [V (0, 0, 0); V (1, 0, 0); V (0, 1, 0); V (1, 1, 0); VN (0, 0, 1)]%N.
-Definition file_two_groups : list line :=
-  quad ++ [G ["a"%string]; UseMtl ["m1"%string]; F (c1 1) (c1 2) (c1 3);
-           G ["b"%string]; UseMtl ["m2"%string]; F (c1 2) (c1 3) (c1 4)].
-Definition file_default_group : list line :=
-  quad ++ [F (c1 1) (c1 2) (c1 3); G ["a"%string]; F (c1 2) (c1 3) (c1 4)].
-Definition cn (v : Z) : corner := (v, None, Some 1%Z).
-Definition file_mixed_forms : list line :=
-  quad ++ [G ["a"%string]; F (cn 1) (cn 2) (cn 3); F (c1 2) (c1 3) (c1 4)].
+Lemma forallb_cover {A} (f : A -> bool) (cts : list A) (tris : list nat) d :
+  (forall p, In p tris -> p < length cts) -> (forall p, p < length cts -> In p tris) ->
+  forallb f (map (fun p => nth p cts d) tris) = forallb f cts.
+Proof.
+  intros Hlt Hcov. apply eq_iff_eq_true. rewrite !forallb_forall. split; intros H x Hx.
+  - destruct (In_nth _ _ d Hx) as (p & Hp & <-). apply H. apply in_map_iff. eauto.
+  - apply in_map_iff in Hx. destruct Hx as (p & <- & Hp). apply H. apply nth_In. auto.
+Qed.
 
-(* load, save, load with a given reader configuration *)
-Definition resave (cfg : rcfg) (file : list line) : res (list gobs) :=
-  dor '(gs, _) <- read_gen cfg file;
-  dor ls <- write None gs;
-  dor '(gs', _) <- read_gen cfg ls;
-  Ok (map obs gs').
-
-Lemma group_material_refuted :
-  valid file_two_groups = true /\
-  resave cfg_pinned file_two_groups = Crash /\
-  resave cfg_full file_two_groups = Ok (file_groups file_two_groups).
-Proof. split; [reflexivity|]. split; vm_compute; reflexivity. Qed.
-
-Lemma bare_group_refuted :
-  valid file_default_group = true /\
-  resave cfg_f82 file_default_group = Declared /\
-  resave cfg_full file_default_group = Ok (file_groups file_default_group).
-Proof. split; [reflexivity|]. split; vm_compute; reflexivity. Qed.
-
-Lemma mixed_forms_refuted :
-  valid file_mixed_forms = true /\
-  resave {| close_at_g := true; bare_g := true; drop_partial := false |} file_mixed_forms = Crash /\
-  resave cfg_full file_mixed_forms = Ok (file_groups file_mixed_forms).
-Proof. split; [reflexivity|]. split; vm_compute; reflexivity. Qed.
+Lemma in_firstn' {A} n : forall (l : list A) x, In x (firstn n l) -> In x l.
+Proof. induction n; destruct l; simpl; intuition. Qed.
+Lemma in_skipn' {A} n : forall (l : list A) x, In x (skipn n l) -> In x l.
+Proof. induction n; destruct l; simpl; intuition. Qed.
+Lemma skipn_add {A} a : forall b (l : list A), skipn a (skipn b l) = skipn (b + a) l.
+Proof. induction b; destruct l; simpl; auto. destruct a; reflexivity. Qed.
+Lemma repeat_snoc {A} (x : A) n : repeat x (S n) = repeat x n ++ [x].
+Proof. induction n; simpl in *; congruence. Qed.
+Lemma map_repeat {A B} (f : A -> B) x n : map f (repeat x n) = repeat (f x) n.
+Proof. induction n; simpl; congruence. Qed.
 
 (* ====================================================================================== *)
-(* Part A: the reader computes the direct semantics on every valid line list               *)
+(* corner tokens and table lookups                                                         *)
 (* ====================================================================================== *)
-From Coq Require Import ZifyNat ZifyBool.
-
 Lemma oz_eqb_eq a b : oz_eqb a b = true -> a = b.
 Proof. destruct a, b; simpl; try congruence. intros H. apply Z.eqb_eq in H. congruence. Qed.
-Lemma oz_eqb_refl a : oz_eqb a a = true.
-Proof. destruct a; simpl; auto. apply Z.eqb_refl. Qed.
 Lemma corner_eqb_eq a b : corner_eqb a b = true -> a = b.
 Proof.
-  destruct a as [[v t] n], b as [[v' t'] n']. unfold corner_eqb.
-  rewrite !andb_true_iff. intros [[H1 H2] H3].
-  apply Z.eqb_eq in H1. apply oz_eqb_eq in H2. apply oz_eqb_eq in H3. congruence.
+  destruct a as [[[v t] n] s], b as [[[v' t'] n'] s']. unfold corner_eqb.
+  rewrite !andb_true_iff. intros [[[H1 H2] H3] H4].
+  apply Z.eqb_eq in H1. apply oz_eqb_eq in H2. apply oz_eqb_eq in H3. apply N.eqb_eq in H4. congruence.
 Qed.
-Lemma corner_eqb_refl a : corner_eqb a a = true.
-Proof. destruct a as [[v t] n]. unfold corner_eqb. rewrite Z.eqb_refl, !oz_eqb_refl. reflexivity. Qed.
 
 Lemma find_idx_some c l p : find_idx corner_eqb c l = Some p -> nth_error l p = Some c.
 Proof.
@@ -86,17 +91,6 @@ Proof.
     injection H as <-. simpl. apply IH. reflexivity.
 Qed.
 
-Lemma nth_error_app_some {A} (l e : list A) p x : nth_error l p = Some x -> nth_error (l ++ e) p = Some x.
-Proof. intros H. rewrite nth_error_app1; auto. apply nth_error_Some. congruence. Qed.
-
-Lemma map_nth_error_app {A} (l e : list A) ps xs :
-  map (nth_error l) ps = map Some xs -> map (nth_error (l ++ e)) ps = map Some xs.
-Proof.
-  revert xs. induction ps as [|p ps IH]; intros [|x xs] H; simpl in *; try discriminate; auto.
-  injection H as H1 H2. f_equal; auto. apply nth_error_app_some; auto.
-Qed.
-
-(* table lookups *)
 Lemma look_ok {A} (tbl : list A) z : idx_ok (length tbl) z = true ->
   exists x, look tbl z = Ok (Some x) /\ slook tbl (Some z) = Some x.
 Proof.
@@ -107,6 +101,12 @@ Proof.
   destruct (nth_error tbl (Z.to_nat (z - 1))) eqn:E.
   - eauto.
   - apply nth_error_None in E. lia.
+Qed.
+Lemma look_req_ok {A} (tbl : list A) z : idx_ok (length tbl) z = true ->
+  exists x, look_req tbl z = Ok x /\ slook tbl (Some z) = Some x.
+Proof.
+  intros H. destruct (look_ok tbl z H) as (x & H1 & H2). exists x. split; auto.
+  unfold look_req. rewrite H1. reflexivity.
 Qed.
 Lemma look_opt_ok {A} (tbl : list A) o : oidx_ok (length tbl) o = true -> look_opt tbl o = Ok (slook tbl o).
 Proof.
@@ -126,6 +126,986 @@ Proof. destruct o; simpl; auto. apply idx_ok_mono. Qed.
 Lemma corner_ok_mono a b c a' b' c' x : a <= a' -> b <= b' -> c <= c' ->
   corner_ok a b c x = true -> corner_ok a' b' c' x = true.
 Proof.
-  destruct x as [[v t] n]. unfold corner_ok. rewrite !andb_true_iff. intros ? ? ? [[? ?] ?].
+  destruct x as [[[v t] n] s]. unfold corner_ok. rewrite !andb_true_iff. intros ? ? ? [[? ?] ?].
   repeat split; eauto using idx_ok_mono, oidx_ok_mono.
 Qed.
+
+(* ====================================================================================== *)
+(* Part A: simulation between the reader state and the direct semantics                    *)
+(* ====================================================================================== *)
+Definition cpos (c : content) : option vec3 := fst (fst c).
+Definition cuv (c : content) : option vec2 := snd (fst c).
+Definition cnrm (c : content) : option vec3 := snd c.
+Definition dcontent : content := (None, None, None).
+Definition dtag (t : option name) : option name :=
+  match t with Some n => Some n | None => Some default_name end.
+
+(* the content of a corner depends on the three tables only *)
+Definition tcontent (tv : list vec3) (tt : list vec2) (tn : list vec3) (c : corner) : content :=
+  let '(v, vt, vn, _) := c in (slook tv (Some v), slook tt vt, slook tn vn).
+Lemma scontent_t s c : scontent s c = tcontent (s_v s) (s_vt s) (s_vn s) c.
+Proof. reflexivity. Qed.
+
+Section Tables.
+Variables (tv : list vec3) (tt : list vec2) (tn : list vec3).
+Let ok (c : corner) : Prop := corner_ok (length tv) (length tt) (length tn) c = true.
+Let ct := tcontent tv tt tn.
+
+Record tinv (g : wgeom) : Prop := {
+  t_ok : Forall ok (w_tbl g);
+  t_pos : w_pos g = compact (map (fun c => cpos (ct c)) (w_tbl g));
+  t_uv : w_uv g = compact (map (fun c => cuv (ct c)) (w_tbl g));
+  t_nrm : w_nrm g = compact (map (fun c => cnrm (ct c)) (w_tbl g)) }.
+
+Lemma ok_pos c : ok c -> is_some (cpos (ct c)) = true.
+Proof.
+  destruct c as [[[v t] n] s]. unfold ok, corner_ok, ct, tcontent, cpos. rewrite !andb_true_iff.
+  intros [[H _] _]. destruct (look_ok tv v H) as (x & _ & ->). reflexivity.
+Qed.
+
+Lemma corner_step_ok r g c :
+  r_v r = tv -> r_vt r = tt -> r_vn r = tn -> tinv g -> ok c ->
+  exists g' p, corner_step r g c = Ok (g', p) /\ tinv g' /\
+    w_name g' = w_name g /\ w_tris g' = w_tris g /\ w_mats g' = w_mats g /\
+    nth_error (w_tbl g') p = Some c /\
+    (exists e, w_tbl g' = w_tbl g ++ e) /\
+    (length (w_tbl g') = length (w_tbl g)
+     \/ (length (w_tbl g') = S (length (w_tbl g)) /\ p = length (w_tbl g))).
+Proof.
+  intros Hv Ht Hn [I1 I2 I3 I4] Hc. unfold corner_step.
+  destruct (find_idx corner_eqb c (w_tbl g)) as [p|] eqn:E.
+  - exists g, p. repeat split; auto. + apply find_idx_some; auto. + exists []. now rewrite app_nil_r.
+  - pose proof Hc as Hc'. destruct c as [[[v t] n] s]. unfold ok, corner_ok in Hc'.
+    rewrite !andb_true_iff in Hc'. destruct Hc' as [[H1 H2] H3].
+    rewrite Hv, Ht, Hn.
+    destruct (look_req_ok tv v H1) as (x & Hx & Hsx). rewrite Hx. cbn [rbind].
+    rewrite (look_opt_ok tn n H3), (look_opt_ok tt t H2). cbn [rbind].
+    eexists. eexists. split; [reflexivity|].
+    repeat split; cbn [w_name w_tbl w_tris w_pos w_uv w_nrm w_mats]; auto.
+    + apply Forall_app. split; auto.
+    + rewrite map_app, compact_app, <- I2. f_equal. unfold compact, cpos, ct, tcontent. cbn [map flat_map fst snd]. rewrite Hsx. reflexivity.
+    + rewrite map_app, compact_app, <- I3. f_equal. cbn. now rewrite app_nil_r.
+    + rewrite map_app, compact_app, <- I4. f_equal. cbn. now rewrite app_nil_r.
+    + rewrite nth_error_app2, Nat.sub_diag; auto.
+    + eauto.
+    + right. rewrite app_length. simpl. lia.
+Qed.
+End Tables.
+
+Lemma tcontent_app tv tt tn ev et en c :
+  corner_ok (length tv) (length tt) (length tn) c = true ->
+  tcontent (tv ++ ev) (tt ++ et) (tn ++ en) c = tcontent tv tt tn c.
+Proof.
+  destruct c as [[[v t] n] s]. unfold corner_ok, tcontent. rewrite !andb_true_iff. intros [[H1 H2] H3].
+  rewrite (slook_app tv ev (Some v)), (slook_app tt et t), (slook_app tn en n); auto.
+Qed.
+
+Lemma tinv_app tv tt tn ev et en g : tinv tv tt tn g -> tinv (tv ++ ev) (tt ++ et) (tn ++ en) g.
+Proof.
+  intros [I1 I2 I3 I4].
+  assert (E : forall T (f : content -> T), map (fun c => f (tcontent (tv ++ ev) (tt ++ et) (tn ++ en) c)) (w_tbl g)
+              = map (fun c => f (tcontent tv tt tn c)) (w_tbl g)).
+  { intros T f. apply map_ext_in. intros c Hc. rewrite tcontent_app; auto.
+    rewrite Forall_forall in I1. auto. }
+  constructor.
+  - eapply Forall_impl; [|exact I1]. intros c. apply corner_ok_mono; rewrite app_length; lia.
+  - rewrite E. auto.
+  - rewrite E. auto.
+  - rewrite E. auto.
+Qed.
+
+(* ---------- material bookkeeping ---------- *)
+Lemma set_last_snoc init c0 a c : set_last (init ++ [(c0, a)]) c = init ++ [(c, a)].
+Proof.
+  induction init as [|x r IH]; [reflexivity|].
+  change ((x :: r) ++ [(c0, a)]) with (x :: (r ++ [(c0, a)])).
+  change ((x :: r) ++ [(c, a)]) with (x :: (r ++ [(c, a)])).
+  remember (r ++ [(c0, a)]) as t eqn:E. destruct t as [|y q].
+  - destruct r; discriminate.
+  - rewrite <- IH. destruct x. reflexivity.
+Qed.
+Lemma tri_mats_app a b : tri_mats (a ++ b) = tri_mats a ++ tri_mats b.
+Proof. apply flat_map_app. Qed.
+Lemma tri_mats_one c a : tri_mats [(c, a)] = repeat a c.
+Proof. unfold tri_mats. simpl. apply app_nil_r. Qed.
+Lemma tri_mats_length m : length (tri_mats m) = sum_counts m.
+Proof. induction m as [|[c a] m IH]; simpl; auto. rewrite app_length, repeat_length. simpl. f_equal. exact IH. Qed.
+Lemma forallb_map {A B} (f : B -> bool) (g : A -> B) l : forallb f (map g l) = forallb (fun x => f (g x)) l.
+Proof. induction l; simpl; congruence. Qed.
+Lemma forallb_ext' {A} (f g : A -> bool) l : (forall x, f x = g x) -> forallb f l = forallb g l.
+Proof. intros H. induction l; simpl; congruence. Qed.
+Lemma has_uv_is c : has_uv c = is_some (cuv c).
+Proof. destruct c as [[p [u|]] n]; reflexivity. Qed.
+Lemma has_nrm_is c : has_nrm c = is_some (cnrm c).
+Proof. destruct c as [[p u] [n|]]; reflexivity. Qed.
+Lemma keep_full_len {A} n (l : list A) :
+  (length (keep_full true n l) =? 0) || (length (keep_full true n l) =? n) = true.
+Proof.
+  unfold keep_full. destruct (length l =? n) eqn:E.
+  - apply Nat.eqb_eq in E. rewrite E, Nat.eqb_refl. apply orb_true_r.
+  - reflexivity.
+Qed.
+
+(* ---------- the group invariant ---------- *)
+Record ginv (tv : list vec3) (tt : list vec2) (tn : list vec3)
+            (nm : name) (cs : list content) (tg : list (option name)) (cur : option name)
+            (g : wgeom) (since : nat) : Prop := {
+  g_t : tinv tv tt tn g;
+  g_name : w_name g = nm;
+  g_cs : cs = map (fun p => nth p (map (tcontent tv tt tn) (w_tbl g)) dcontent) (w_tris g);
+  g_lt : forall p, In p (w_tris g) -> p < length (w_tbl g);
+  g_cov : forall p, p < length (w_tbl g) -> In p (w_tris g);
+  g_len : length (w_tris g) = 3 * length tg;
+  g_matok : forallb mat_ok (w_mats g) = true;
+  g_mats : match cur with
+           | None => w_mats g = [] /\ tg = repeat None since
+           | Some n => nonnil n = true /\ exists init, w_mats g = init ++ [(0, Some n)] /\
+                       map dtag tg = tri_mats init ++ repeat (Some n) since
+           end }.
+
+Lemma ginv_app tv tt tn ev et en nm cs tg cur g since :
+  ginv tv tt tn nm cs tg cur g since -> ginv (tv ++ ev) (tt ++ et) (tn ++ en) nm cs tg cur g since.
+Proof.
+  intros [I1 I2 I3 I4 I5 I6 I7 I8]. constructor; auto.
+  - apply tinv_app; auto.
+  - rewrite I3. apply map_ext. intros p. f_equal. apply map_ext_in. intros c Hc.
+    rewrite tcontent_app; auto. destruct I1 as [I1 _ _ _]. rewrite Forall_forall in I1. auto.
+Qed.
+
+Lemma ginv_fresh tv tt tn n : ginv tv tt tn n [] [] None (wnew n []) 0.
+Proof.
+  constructor; cbn; auto.
+  - constructor; cbn; auto.
+  - intros p [].
+  - intros p H. lia.
+Qed.
+
+Lemma face_step_ok tv tt tn nm cs tg cur r a b c :
+  r_v r = tv -> r_vt r = tt -> r_vn r = tn ->
+  ginv tv tt tn nm cs tg cur (r_w r) (r_since r) ->
+  corner_ok (length tv) (length tt) (length tn) a = true ->
+  corner_ok (length tv) (length tt) (length tn) b = true ->
+  corner_ok (length tv) (length tt) (length tn) c = true ->
+  exists r', face_step r a b c = Ok r' /\ r_v r' = tv /\ r_vt r' = tt /\ r_vn r' = tn /\
+    r_done r' = r_done r /\ r_libs r' = r_libs r /\
+    ginv tv tt tn nm (cs ++ [tcontent tv tt tn a; tcontent tv tt tn b; tcontent tv tt tn c]) (tg ++ [cur]) cur
+         (r_w r') (r_since r').
+Proof.
+  intros Hv Ht Hn [I1 I2 I3 I4 I5 I6 I7 I8] Ha Hb Hc.
+  destruct (corner_step_ok tv tt tn r (r_w r) a Hv Ht Hn I1 Ha)
+    as (g1 & p1 & E1 & T1 & N1 & R1 & M1 & X1 & (e1 & P1) & L1).
+  destruct (corner_step_ok tv tt tn r g1 b Hv Ht Hn T1 Hb)
+    as (g2 & p2 & E2 & T2 & N2 & R2 & M2 & X2 & (e2 & P2) & L2).
+  destruct (corner_step_ok tv tt tn r g2 c Hv Ht Hn T2 Hc)
+    as (g3 & p3 & E3 & T3 & N3 & R3 & M3 & X3 & (e3 & P3) & L3).
+  unfold face_step. rewrite E1. cbn [rbind]. rewrite E2. cbn [rbind]. rewrite E3. cbn [rbind].
+  eexists. split; [reflexivity|]. cbn [r_v r_vt r_vn r_done r_libs r_w r_since].
+  repeat (split; [assumption || reflexivity|]).
+  assert (X1' : nth_error (w_tbl g3) p1 = Some a).
+  { rewrite P3, P2. apply nth_error_app_some, nth_error_app_some, X1. }
+  assert (X2' : nth_error (w_tbl g3) p2 = Some b).
+  { rewrite P3. apply nth_error_app_some, X2. }
+  assert (B1 : p1 < length (w_tbl g3)) by (apply nth_error_Some; congruence).
+  assert (B2 : p2 < length (w_tbl g3)) by (apply nth_error_Some; congruence).
+  assert (B3 : p3 < length (w_tbl g3)) by (apply nth_error_Some; congruence).
+  assert (LE : length (w_tbl (r_w r)) <= length (w_tbl g3)) by lia.
+  constructor; cbn [add_tri w_name w_tbl w_tris w_pos w_uv w_nrm w_mats].
+  - destruct T3. constructor; auto.
+  - congruence.
+  - rewrite map_app. f_equal.
+    + rewrite I3, R3, R2, R1. apply map_ext_in. intros p Hp. apply I4 in Hp.
+      rewrite P3, P2, P1, !map_app, !app_nth1; auto; rewrite ?app_length, map_length; lia.
+    + cbn [map]. rewrite (nth_map_nth_error _ _ _ _ _ X1'), (nth_map_nth_error _ _ _ _ _ X2'),
+        (nth_map_nth_error _ _ _ _ _ X3). reflexivity.
+  - intros p Hp. rewrite R3, R2, R1 in Hp. apply in_app_or in Hp. destruct Hp as [Hp|Hp].
+    + apply I4 in Hp. lia.
+    + simpl in Hp. intuition subst; auto.
+  - intros p Hp. rewrite R3, R2, R1. apply in_or_app.
+    destruct (Nat.lt_ge_cases p (length (w_tbl (r_w r)))) as [Q|Q]; [left; auto|].
+    right. simpl. lia.
+  - rewrite R3, R2, R1, !app_length, I6. simpl. lia.
+  - congruence.
+  - rewrite M3, M2, M1. destruct cur as [n|].
+    + destruct I8 as (Hn' & init & Hm & Htg). split; auto. exists init. split; auto.
+      rewrite map_app, Htg, repeat_snoc, app_assoc. reflexivity.
+    + destruct I8 as (Hm & Htg). split; auto. rewrite Htg, repeat_snoc. reflexivity.
+Qed.
+
+(* ---------- closing a group: the mesh handed out has the observation of the direct semantics ---------- *)
+Lemma mats_close tg cur mats since :
+  forallb mat_ok mats = true ->
+  match cur with
+  | None => mats = [] /\ tg = repeat None since
+  | Some n => nonnil n = true /\ exists init, mats = init ++ [(0, Some n)] /\
+              map dtag tg = tri_mats init ++ repeat (Some n) since
+  end ->
+  let mats' := close_mats since mats in
+  tri_mats mats' = final_tags cur tg /\ forallb mat_ok mats' = true /\
+  (nonnil mats' = true -> sum_counts mats' = length tg).
+Proof.
+  intros Hok H. destruct cur as [n|].
+  - destruct H as (Hn & init & -> & Htg). cbn zeta.
+    assert (E : close_mats since (init ++ [(0, Some n)]) = init ++ [(since, Some n)]).
+    { unfold close_mats. destruct (0 <? since) eqn:Q.
+      - cbn [andb]. destruct init as [|x r]; [reflexivity|]. cbn [app nonnil].
+        apply (set_last_snoc (x :: r)).
+      - apply Nat.ltb_ge in Q. simpl. replace since with 0 by lia. reflexivity. }
+    rewrite E. assert (T : tri_mats (init ++ [(since, Some n)]) = final_tags (Some n) tg).
+    { rewrite tri_mats_app, tri_mats_one. transitivity (map dtag tg); [symmetry; exact Htg|reflexivity]. }
+    split; [exact T|]. split.
+    + rewrite forallb_app in *. apply andb_true_iff in Hok. destruct Hok as [H1 H2]. rewrite H1. simpl.
+      unfold mat_ok. simpl. destruct n; [discriminate|reflexivity].
+    + intros _. rewrite <- tri_mats_length, T. unfold final_tags. apply map_length.
+  - destruct H as (-> & ->). cbn zeta. unfold close_mats. rewrite andb_false_r. simpl. auto.
+    repeat split; auto. discriminate.
+Qed.
+
+Lemma close_ok tv tt tn nm cs tg cur g since :
+  ginv tv tt tn nm cs tg cur g since ->
+  let m := to_mesh cfg_full g (close_mats since (w_mats g)) in
+  obs m = (nm, normalise cs, final_tags cur tg) /\ wf_mesh m = true /\ nonnil (m_idx m) = nonnil cs.
+Proof.
+  intros [[T1 T2 T3 T4] I2 I3 I4 I5 I6 I7 I8]. cbn zeta.
+  destruct (mats_close tg cur (w_mats g) since I7 I8) as (M1 & M2 & M3).
+  set (ct := tcontent tv tt tn) in *.
+  set (cts := map ct (w_tbl g)) in *.
+  assert (Lc : length cts = length (w_tbl g)) by apply map_length.
+  set (colp := map (fun c => cpos (ct c)) (w_tbl g)) in *.
+  set (colu := map (fun c => cuv (ct c)) (w_tbl g)) in *.
+  set (coln := map (fun c => cnrm (ct c)) (w_tbl g)) in *.
+  assert (Ep : colp = map cpos cts) by (unfold colp, cts; now rewrite map_map).
+  assert (Eu : colu = map cuv cts) by (unfold colu, cts; now rewrite map_map).
+  assert (En : coln = map cnrm cts) by (unfold coln, cts; now rewrite map_map).
+  assert (Fp : forallb is_some colp = true).
+  { unfold colp. rewrite forallb_map. apply forallb_forall. intros c Hc.
+    rewrite Forall_forall in T1. apply (ok_pos tv tt tn). apply T1. exact Hc. }
+  assert (Lp : length (w_pos g) = length (w_tbl g)).
+  { rewrite T2. fold colp. transitivity (length colp); [|apply map_length].
+    apply Nat.eqb_eq. rewrite compact_full_eqb. exact Fp. }
+  assert (Lu : length colu = length (w_tbl g)) by apply map_length.
+  assert (Ln : length coln = length (w_tbl g)) by apply map_length.
+  split; [|split].
+  - unfold obs, to_mesh. cbn [m_name m_mats m_idx m_pos m_uv m_nrm drop_partial cfg_full].
+    rewrite I2, M1. f_equal. f_equal.
+    unfold corners, corner_content. cbn [m_name m_mats m_idx m_pos m_uv m_nrm].
+    unfold normalise. rewrite I3, map_map. fold cts.
+    rewrite (forallb_cover has_uv cts (w_tris g) dcontent), (forallb_cover has_nrm cts (w_tris g) dcontent)
+      by (rewrite ?Lc; auto).
+    apply map_ext. intros p.
+    rewrite Lp. rewrite <- Lu at 1. rewrite <- Ln. rewrite T3, T4. fold colu coln.
+    rewrite !kept_nth. rewrite T2. fold colp.
+    rewrite nth_error_nth_map, compact_full by (apply Nat.eqb_eq; rewrite compact_full_eqb; exact Fp).
+    rewrite Ep, Eu, En, !forallb_map.
+    change None with (cpos dcontent) at 1. rewrite map_nth.
+    change (@None vec2) with (cuv dcontent) at 1. rewrite map_nth.
+    change (@None vec3) with (cnrm dcontent) at 1. rewrite map_nth.
+    rewrite (forallb_ext' _ _ _ has_uv_is), (forallb_ext' _ _ _ has_nrm_is).
+    destruct (nth p cts dcontent) as [[xp xu] xn]. reflexivity.
+  - unfold wf_mesh, to_mesh. cbn [m_name m_mats m_idx m_pos m_uv m_nrm drop_partial cfg_full].
+    rewrite M2, !keep_full_len, !andb_true_r. rewrite !andb_true_iff. repeat split.
+    + apply Nat.eqb_eq. rewrite I6. lia.
+    + apply forallb_forall. intros p Hp. apply Nat.ltb_lt. rewrite Lp. auto.
+    + destruct (nonnil (close_mats since (w_mats g))) eqn:Q; simpl; auto.
+      apply Nat.eqb_eq. rewrite M3, I6; auto.
+  - unfold to_mesh. cbn [m_idx]. rewrite I3. destruct (w_tris g); reflexivity.
+Qed.
+
+(* ---------- the simulation ---------- *)
+Record sim (r : rstate) (s : sstate) : Prop := {
+  s_tv : r_v r = s_v s; s_tt : r_vt r = s_vt s; s_tn : r_vn r = s_vn s;
+  s_dn : map obs (r_done r) = s_done s;
+  s_wf : Forall (fun m => wf_mesh m = true /\ nonnil (m_idx m) = true) (r_done r);
+  s_g : ginv (s_v s) (s_vt s) (s_vn s) (s_nm s) (s_cs s) (s_tg s) (s_cur s) (r_w r) (r_since r) }.
+
+Definition vf (s : sstate) (ls : list line) : bool :=
+  valid_from (length (s_v s)) (length (s_vt s)) (length (s_vn s)) ls.
+
+Lemma sim_init : sim rinit sinit.
+Proof. constructor; cbn; auto. apply ginv_fresh. Qed.
+
+Ltac pj := cbn [sstep set_w set_mats set_name add_tri r_v r_vt r_vn r_done r_w r_since r_libs
+                 s_v s_vt s_vn s_done s_nm s_cs s_tg s_cur w_name w_tbl w_tris w_pos w_uv w_nrm w_mats].
+
+Lemma step_ok r s l ls : sim r s -> vf s (l :: ls) = true ->
+  exists r', step cfg_full r l = Ok r' /\ sim r' (sstep s l) /\ vf (sstep s l) ls = true /\
+             r_libs r' = r_libs r ++ lib_names [l].
+Proof.
+  intros [Sv St Sn Sd Sw Sg] Hv. unfold vf in *. destruct l; cbn [valid_from] in Hv.
+  - (* v *) eexists. split; [reflexivity|]. split; [|split].
+    + constructor; cbn; auto; try congruence.
+      pose proof (ginv_app _ _ _ [p] [] [] _ _ _ _ _ _ Sg) as H. now rewrite !app_nil_r in H.
+    + cbn. rewrite app_length. simpl. now rewrite Nat.add_1_r.
+    + cbn. now rewrite app_nil_r.
+  - (* vt *) eexists. split; [reflexivity|]. split; [|split].
+    + constructor; cbn; auto; try congruence.
+      pose proof (ginv_app _ _ _ [] [p] [] _ _ _ _ _ _ Sg) as H. now rewrite !app_nil_r in H.
+    + cbn. rewrite app_length. simpl. now rewrite Nat.add_1_r.
+    + cbn. now rewrite app_nil_r.
+  - (* vn *) eexists. split; [reflexivity|]. split; [|split].
+    + constructor; cbn; auto; try congruence.
+      pose proof (ginv_app _ _ _ [] [] [p] _ _ _ _ _ _ Sg) as H. now rewrite !app_nil_r in H.
+    + cbn. rewrite app_length. simpl. now rewrite Nat.add_1_r.
+    + cbn. now rewrite app_nil_r.
+  - (* g *) cbn [step cfg_full bare_g close_at_g]. rewrite orb_true_r.
+    pose proof (close_ok _ _ _ _ _ _ _ _ _ Sg) as (C1 & C2 & C3). cbn zeta in *.
+    assert (NE : nonnil (w_tris (r_w r)) = nonnil (s_cs s)) by exact C3.
+    rewrite NE. cbn [sstep]. destruct (nonnil (s_cs s)) eqn:Q.
+    + eexists. split; [reflexivity|]. split; [|split].
+      * constructor; cbn [r_v r_vt r_vn r_done r_w r_since s_v s_vt s_vn s_done s_nm s_cs s_tg s_cur]; auto.
+        -- rewrite map_app, Sd. cbn [map]. f_equal. f_equal. exact C1.
+        -- apply Forall_app. split; [exact Sw|]. constructor; [|constructor].
+           split; [exact C2|exact C3].
+        -- apply ginv_fresh.
+      * exact Hv.
+      * cbn. now rewrite app_nil_r.
+    + eexists. split; [reflexivity|]. split; [|split].
+      * constructor; cbn [set_w r_v r_vt r_vn r_done r_w r_since s_v s_vt s_vn s_done s_nm s_cs s_tg s_cur]; auto.
+        destruct Sg as [[T1 T2 T3 T4] I2 I3 I4 I5 I6 I7 I8]. constructor; auto. constructor; auto.
+      * exact Hv.
+      * cbn. now rewrite app_nil_r.
+  - (* usemtl *) apply andb_true_iff in Hv. destruct Hv as [Hn Hv]. cbn [step]. rewrite Hn.
+    eexists. split; [reflexivity|]. split; [|split]; [|exact Hv|cbn; now rewrite app_nil_r].
+    constructor; pj; auto. destruct Sg as [I1 I2 I3 I4 I5 I6 I7 I8].
+    constructor; pj; auto.
+    + destruct I1. constructor; auto.
+    + rewrite forallb_app. apply andb_true_iff. split.
+      * destruct (0 <? r_since r); auto. destruct (nonnil (w_mats (r_w r))) eqn:Q; [|reflexivity].
+        destruct (s_cur s) as [m|].
+        -- destruct I8 as (Hm & init & E & _). rewrite E in *. rewrite set_last_snoc.
+           rewrite forallb_app in *. apply andb_true_iff in I7. destruct I7 as [-> I7]. exact I7.
+        -- destruct I8 as (E & _). rewrite E in Q. discriminate.
+      * cbn. unfold mat_ok. cbn. destruct n; [discriminate|reflexivity].
+    + split; auto. eexists. split; [reflexivity|]. cbn [repeat]. rewrite app_nil_r.
+      destruct (s_cur s) as [m|].
+      * destruct I8 as (Hm & init & E & Htg). rewrite E. destruct (0 <? r_since r) eqn:Q.
+        -- assert (NN : nonnil (init ++ [(0, Some m)]) = true) by (destruct init; reflexivity).
+           transitivity (tri_mats (init ++ [(r_since r, Some m)])).
+           ++ rewrite tri_mats_app, tri_mats_one. exact Htg.
+           ++ f_equal. destruct init as [|x q]; [reflexivity|]. cbn [app nonnil].
+              symmetry. apply (set_last_snoc (x :: q)).
+        -- apply Nat.ltb_ge in Q. rewrite tri_mats_app, tri_mats_one. replace (r_since r) with 0 in Htg by lia.
+           exact Htg.
+      * destruct I8 as (E & Htg). rewrite E, Htg, map_repeat. cbn [nonnil dtag].
+        destruct (0 <? r_since r) eqn:Q.
+        -- now rewrite tri_mats_one.
+        -- apply Nat.ltb_ge in Q. replace (r_since r) with 0 by lia. reflexivity.
+  - (* f *) rewrite !andb_true_iff in Hv. destruct Hv as [[[Ha Hb] Hc] Hv].
+    destruct (face_step_ok _ _ _ _ _ _ _ r a b c Sv St Sn Sg Ha Hb Hc)
+      as (r' & E & V1 & V2 & V3 & D & L & G').
+    exists r'. split; [exact E|]. split; [|split]; cbn; auto; [|now rewrite app_nil_r].
+    constructor; cbn; auto; congruence.
+  - discriminate.
+  - discriminate.
+  - (* mtllib *) apply andb_true_iff in Hv. destruct Hv as [Hn Hv]. cbn [step]. rewrite Hn.
+    eexists. split; [reflexivity|]. split; [|split]; cbn; auto; [|now rewrite app_nil_r].
+    constructor; cbn; auto.
+  - eexists. split; [reflexivity|]. split; [|split]; cbn; auto; [|now rewrite app_nil_r]. constructor; auto.
+  - eexists. split; [reflexivity|]. split; [|split]; cbn; auto; [|now rewrite app_nil_r]. constructor; auto.
+Qed.
+
+Lemma lib_names_cons l ls : lib_names (l :: ls) = lib_names [l] ++ lib_names ls.
+Proof. unfold lib_names. cbn. now rewrite app_nil_r. Qed.
+
+Lemma run_ok ls : forall r s, sim r s -> vf s ls = true ->
+  exists r', run cfg_full r ls = Ok r' /\ sim r' (srun s ls) /\ r_libs r' = r_libs r ++ lib_names ls.
+Proof.
+  induction ls as [|l ls IH]; intros r s S Hv.
+  - exists r. cbn. rewrite app_nil_r. auto.
+  - destruct (step_ok r s l ls S Hv) as (r1 & E1 & S1 & V1 & L1).
+    destruct (IH r1 _ S1 V1) as (r2 & E2 & S2 & L2).
+    exists r2. cbn [run srun fold_left]. rewrite E1. cbn [rbind]. split; [exact E2|]. split; [exact S2|].
+    rewrite L2, L1, (lib_names_cons l ls), app_assoc. reflexivity.
+Qed.
+
+Lemma nonempty_but_last_snoc ms m :
+  Forall (fun x => nonnil (m_idx x) = true) ms -> nonempty_but_last (ms ++ [m]) = true.
+Proof.
+  induction ms as [|x r IH]; intros H; [reflexivity|].
+  inversion H as [|? ? Hx Hr]; subst. cbn [app]. specialize (IH Hr).
+  remember (r ++ [m]) as t eqn:E. destruct t; [destruct r; discriminate|].
+  cbn [nonempty_but_last]. rewrite Hx. exact IH.
+Qed.
+
+(* Part A, headline: the reader computes the direct semantics of every valid file, and what it returns is a
+   well-formed mesh list (the precondition of the writer theorem) *)
+Theorem read_valid ls : valid ls = true ->
+  exists gs, read ls = Ok (gs, lib_names ls) /\ map obs gs = file_groups ls /\ wf_list gs = true.
+Proof.
+  intros Hv. destruct (run_ok ls rinit sinit sim_init Hv) as (r & E & [Sv St Sn Sd Sw Sg] & L).
+  unfold read, read_gen. rewrite E. cbn [rbind]. unfold finish. eexists. split; [|split].
+  - cbn in L. rewrite L. reflexivity.
+  - unfold file_groups. rewrite map_app, Sd. cbn [map]. f_equal. f_equal. unfold sclose.
+    apply (close_ok _ _ _ _ _ _ _ _ _ Sg).
+  - pose proof (close_ok _ _ _ _ _ _ _ _ _ Sg) as (_ & W & _). cbn zeta in W.
+    unfold wf_list. rewrite !andb_true_iff. repeat split.
+    + destruct (r_done r); reflexivity.
+    + rewrite forallb_app. apply andb_true_iff. split; [|cbn; now rewrite W].
+      apply forallb_forall. intros m Hm. rewrite Forall_forall in Sw. apply Sw; auto.
+    + apply nonempty_but_last_snoc. eapply Forall_impl; [|exact Sw]. cbn. intuition.
+Qed.
+
+(* ====================================================================================== *)
+(* Part B: the direct semantics of what the writer emits                                   *)
+(* ====================================================================================== *)
+(* a direct-semantics state with the tables of [st] and the given group fields *)
+Definition mk (st : sstate) (d : list gobs) (nm : name) (cs : list content) (tg : list (option name))
+              (cur : option name) : sstate :=
+  {| s_v := s_v st; s_vt := s_vt st; s_vn := s_vn st; s_done := d; s_nm := nm; s_cs := cs; s_tg := tg; s_cur := cur |}.
+(* ... and with longer tables *)
+Definition mkt (st : sstate) (a : list vec3) (b : list vec2) (c : list vec3) : sstate :=
+  {| s_v := s_v st ++ a; s_vt := s_vt st ++ b; s_vn := s_vn st ++ c; s_done := s_done st; s_nm := s_nm st;
+     s_cs := s_cs st; s_tg := s_tg st; s_cur := s_cur st |}.
+
+Lemma srun_app st a b : srun st (a ++ b) = srun (srun st a) b.
+Proof. apply fold_left_app. Qed.
+
+Definition flat3 (ts : list (nat * nat * nat)) : list nat := flat_map (fun t => let '(a, b, c) := t in [a; b; c]) ts.
+
+Lemma tris_of_len k : forall l, length l = 3 * k ->
+  exists ts, tris_of l = Some ts /\ flat3 ts = l /\ length ts = k.
+Proof.
+  induction k as [|k IH]; intros l H.
+  - destruct l; [|discriminate]. exists []. auto.
+  - destruct l as [|a [|b [|c r]]]; simpl in H; try lia.
+    destruct (IH r) as (ts & E & F3 & L); [lia|].
+    exists ((a, b, c) :: ts). cbn [tris_of]. rewrite E. split; [reflexivity|split].
+    + unfold flat3 in *. cbn [flat_map]. rewrite F3. reflexivity.
+    + cbn [length]. lia.
+Qed.
+
+Lemma srun_faces st wc ts : forall d nm cs tg cur,
+  srun (mk st d nm cs tg cur) (map (face_line wc) ts)
+  = mk st d nm (cs ++ map (fun i => scontent st (wc i)) (flat3 ts)) (tg ++ repeat cur (length ts)) cur.
+Proof.
+  induction ts as [|[[a b] c] ts IH]; intros d nm cs tg cur.
+  - cbn. now rewrite !app_nil_r.
+  - cbn [map face_line srun fold_left]. change (fold_left sstep ?l ?s) with (srun s l).
+    change (sstep (mk st d nm cs tg cur) (F (wc a) (wc b) (wc c)))
+      with (mk st d nm (cs ++ [scontent st (wc a); scontent st (wc b); scontent st (wc c)]) (tg ++ [cur]) cur).
+    rewrite IH. cbn [flat3 flat_map map app length repeat]. rewrite <- !app_assoc. reflexivity.
+Qed.
+
+Lemma valid_faces nv nt nn wc ts rest :
+  (forall i, In i (flat3 ts) -> corner_ok nv nt nn (wc i) = true) ->
+  valid_from nv nt nn (map (face_line wc) ts ++ rest) = valid_from nv nt nn rest.
+Proof.
+  induction ts as [|[[a b] c] ts IH]; intros H; [reflexivity|].
+  cbn [map face_line app valid_from]. rewrite !H, IH; cbn; auto.
+  intros i Hi. apply H. cbn. auto.
+Qed.
+
+Lemma mat_written_nonnil mt : mat_ok (0, mt) = true -> nonnil (mat_written mt) = true.
+Proof. destruct mt as [[|t q]|]; cbn; auto. Qed.
+
+Section Mesh.
+Variables (st : sstate) (wc : nat -> corner) (idx : list nat) (ct : nat -> content).
+Let nv := length (s_v st). Let nt := length (s_vt st). Let nn := length (s_vn st).
+Hypothesis Hct : forall i, In i idx -> scontent st (wc i) = ct i /\ corner_ok nv nt nn (wc i) = true.
+
+Definition mtag (mt : option name) : option name := Some (mat_written mt).
+
+Lemma mat_lines_sem mats : forall start d nm cs tg cur,
+  start + 3 * sum_counts mats = length idx -> forallb mat_ok mats = true ->
+  exists body cur', mat_lines wc idx start mats = Ok body /\
+    (forall rest, valid_from nv nt nn (body ++ rest) = valid_from nv nt nn rest) /\
+    srun (mk st d nm cs tg cur) body
+    = mk st d nm (cs ++ map ct (skipn start idx)) (tg ++ map mtag (tri_mats mats)) cur' /\
+    (is_some cur || nonnil mats = true -> is_some cur' = true).
+Proof.
+  induction mats as [|[cnt mt] r IH]; intros start d nm cs tg cur Hs Hok.
+  - exists [], cur. cbn in *. rewrite skipn_all2 by lia. cbn. rewrite !app_nil_r, orb_false_r. auto.
+  - cbn [sum_counts fold_right fst] in Hs. fold (sum_counts r) in Hs.
+    cbn [forallb] in Hok. apply andb_true_iff in Hok. destruct Hok as [Hm Hok].
+    set (seg := firstn (3 * cnt) (skipn start idx)).
+    assert (Ls : length seg = 3 * cnt).
+    { unfold seg. rewrite firstn_length, skipn_length. lia. }
+    destruct (tris_of_len cnt seg Ls) as (ts & Et & F3 & Lt).
+    destruct (IH (start + 3 * cnt) d nm (cs ++ map ct seg) ((tg ++ []) ++ repeat (mtag mt) cnt) (mtag mt))
+      as (body & cur' & Eb & Vb & Rb & Cb); [lia|exact Hok|].
+    assert (Hin : forall i, In i seg -> In i idx).
+    { intros i Hi. unfold seg in Hi. apply in_firstn' in Hi. eapply in_skipn'; eauto. }
+    exists (UseMtl (mat_written mt) :: map (face_line wc) ts ++ body), cur'. split; [|split; [|split]].
+    + cbn [mat_lines]. unfold seg_lines. fold seg. rewrite Ls, Nat.ltb_irrefl, Et. cbn [rbind].
+      rewrite Eb. reflexivity.
+    + intros rest. cbn [app valid_from]. rewrite mat_written_nonnil by (destruct mt; exact Hm).
+      rewrite <- app_assoc, valid_faces, Vb; auto.
+      intros i Hi. rewrite F3 in Hi. apply Hct. auto.
+    + cbn [srun fold_left]. change (fold_left sstep ?l ?s) with (srun s l).
+      change (sstep (mk st d nm cs tg cur) (UseMtl (mat_written mt))) with (mk st d nm cs tg (mtag mt)).
+      rewrite srun_app, srun_faces, F3, Lt.
+      replace (map (fun i => scontent st (wc i)) seg) with (map ct seg)
+        by (apply map_ext_in; intros i Hi; symmetry; apply Hct; auto).
+      rewrite app_nil_r in Rb. rewrite Rb. f_equal.
+      * rewrite <- app_assoc. f_equal. rewrite <- map_app. f_equal.
+        rewrite <- (firstn_skipn (3 * cnt) (skipn start idx)) at 1. fold seg. f_equal.
+        rewrite skipn_add. reflexivity.
+      * rewrite <- app_assoc. f_equal. cbn [tri_mats flat_map fst snd]. rewrite map_app, map_repeat. reflexivity.
+    + intros _. apply Cb. reflexivity.
+Qed.
+
+Lemma body_sem mats d nm :
+  length idx mod 3 = 0 ->
+  (nonnil mats = true -> 3 * sum_counts mats = length idx) -> forallb mat_ok mats = true ->
+  exists body tg cur,
+    match mats with
+    | [] => match tris_of idx with Some ts => Ok (map (face_line wc) ts) | None => Crash end
+    | x :: r => mat_lines wc idx 0 (x :: r)
+    end = Ok body /\
+    (forall rest, valid_from nv nt nn (body ++ rest) = valid_from nv nt nn rest) /\
+    srun (mk st d nm [] [] None) body = mk st d nm (map ct idx) tg cur /\
+    final_tags cur tg = map mtag (tri_mats mats).
+Proof.
+  intros H3 Hs Hok. destruct mats as [|x r].
+  - destruct (tris_of_len (length idx / 3) idx) as (ts & Et & F3 & Lt); [lia|].
+    rewrite Et. eexists. exists (repeat None (length ts)), None. split; [reflexivity|]. split; [|split].
+    + intros rest. apply valid_faces. intros i Hi. rewrite F3 in Hi. apply Hct; auto.
+    + rewrite srun_faces, F3. cbn [app]. f_equal. apply map_ext_in. intros i Hi. apply Hct; auto.
+    + reflexivity.
+  - destruct (mat_lines_sem (x :: r) 0 d nm [] [] None) as (body & cur' & Eb & Vb & Rb & Cb);
+      [rewrite Hs; auto|exact Hok|].
+    exists body. eexists. exists cur'. split; [exact Eb|]. split; [exact Vb|]. split; [exact Rb|].
+    destruct cur' as [n|]; [|discriminate Cb; reflexivity].
+    cbn [app final_tags]. rewrite map_map. apply map_ext. reflexivity.
+Qed.
+End Mesh.
+
+(* ---------- the v / vt / vn blocks ---------- *)
+Lemma mkt_mkt st a b c a' b' c' : mkt (mkt st a b c) a' b' c' = mkt st (a ++ a') (b ++ b') (c ++ c').
+Proof. unfold mkt. cbn. now rewrite !app_assoc. Qed.
+Lemma mkt_nil st : mkt st [] [] [] = st.
+Proof. destruct st. unfold mkt. cbn. now rewrite !app_nil_r. Qed.
+
+Lemma srun_V l : forall st, srun st (map V l) = mkt st l [] [].
+Proof.
+  induction l as [|p l IH]; intros st; [now rewrite mkt_nil|].
+  cbn [map srun fold_left]. change (fold_left sstep ?l ?s) with (srun s l). rewrite IH.
+  unfold mkt. cbn. now rewrite <- !app_assoc, !app_nil_r.
+Qed.
+Lemma srun_VT l : forall st, srun st (map VT l) = mkt st [] l [].
+Proof.
+  induction l as [|p l IH]; intros st; [now rewrite mkt_nil|].
+  cbn [map srun fold_left]. change (fold_left sstep ?l ?s) with (srun s l). rewrite IH.
+  unfold mkt. cbn. now rewrite <- !app_assoc, !app_nil_r.
+Qed.
+Lemma srun_VN l : forall st, srun st (map VN l) = mkt st [] [] l.
+Proof.
+  induction l as [|p l IH]; intros st; [now rewrite mkt_nil|].
+  cbn [map srun fold_left]. change (fold_left sstep ?l ?s) with (srun s l). rewrite IH.
+  unfold mkt. cbn. now rewrite <- !app_assoc, !app_nil_r.
+Qed.
+Lemma srun_vblocks ms : forall st,
+  srun st (flat_map vlines ms) = mkt st (flat_map m_pos ms) (flat_map m_uv ms) (flat_map m_nrm ms).
+Proof.
+  induction ms as [|m r IH]; intros st; [now rewrite mkt_nil|].
+  cbn [flat_map]. unfold vlines at 1. rewrite !srun_app, srun_V, srun_VT, srun_VN, IH, !mkt_mkt.
+  reflexivity.
+Qed.
+
+Lemma valid_V l : forall nv nt nn rest, valid_from nv nt nn (map V l ++ rest) = valid_from (nv + length l) nt nn rest.
+Proof. induction l; intros; cbn [map app valid_from length]; [now rewrite Nat.add_0_r|]. rewrite IHl. f_equal. lia. Qed.
+Lemma valid_VT l : forall nv nt nn rest, valid_from nv nt nn (map VT l ++ rest) = valid_from nv (nt + length l) nn rest.
+Proof. induction l; intros; cbn [map app valid_from length]; [now rewrite Nat.add_0_r|]. rewrite IHl. f_equal. lia. Qed.
+Lemma valid_VN l : forall nv nt nn rest, valid_from nv nt nn (map VN l ++ rest) = valid_from nv nt (nn + length l) rest.
+Proof. induction l; intros; cbn [map app valid_from length]; [now rewrite Nat.add_0_r|]. rewrite IHl. f_equal. lia. Qed.
+Lemma valid_vblocks ms : forall nv nt nn rest,
+  valid_from nv nt nn (flat_map vlines ms ++ rest)
+  = valid_from (nv + length (flat_map m_pos ms)) (nt + length (flat_map m_uv ms)) (nn + length (flat_map m_nrm ms)) rest.
+Proof.
+  induction ms as [|m r IH]; intros; cbn [flat_map]; [cbn; now rewrite !Nat.add_0_r|].
+  unfold vlines at 1. rewrite <- !app_assoc, valid_V, valid_VT, valid_VN, IH, !app_length. f_equal; lia.
+Qed.
+
+(* ---------- running offsets ---------- *)
+Definition at_off {A} (tbl : list A) (k : nat) (mid : list A) : Prop :=
+  exists pre post, tbl = pre ++ mid ++ post /\ k = length pre.
+
+Lemma slook_at {A} (tbl mid : list A) k i : at_off tbl k mid -> i < length mid ->
+  slook tbl (Some (zi (i + 1 + k))) = nth_error mid i /\ idx_ok (length tbl) (zi (i + 1 + k)) = true.
+Proof.
+  intros (pre & post & -> & ->) Hi. unfold slook, idx_ok, zi. split.
+  - destruct (Z.of_nat (i + 1 + length pre) <=? 0)%Z eqn:E; [lia|].
+    replace (Z.to_nat (Z.of_nat (i + 1 + length pre) - 1)) with (length pre + i) by lia.
+    rewrite nth_error_app2 by lia. replace (length pre + i - length pre) with i by lia.
+    apply nth_error_app1. exact Hi.
+  - rewrite !app_length. apply andb_true_iff. split; apply Z.leb_le; lia.
+Qed.
+
+Definition offs_ok (st : sstate) (o : offs) (m : mesh) : Prop :=
+  at_off (s_v st) (ov o) (m_pos m) /\ at_off (s_vt st) (ot o) (m_uv m) /\ at_off (s_vn st) (on o) (m_nrm m).
+
+Lemma wf_mesh_parts m : wf_mesh m = true ->
+  length (m_idx m) mod 3 = 0 /\ (forall i, In i (m_idx m) -> i < length (m_pos m)) /\
+  (m_uv m = [] \/ length (m_uv m) = length (m_pos m)) /\
+  (m_nrm m = [] \/ length (m_nrm m) = length (m_pos m)) /\
+  (nonnil (m_mats m) = true -> 3 * sum_counts (m_mats m) = length (m_idx m)) /\
+  forallb mat_ok (m_mats m) = true.
+Proof.
+  unfold wf_mesh. rewrite !andb_true_iff, !orb_true_iff. intros [[[[[H1 H2] H3] H4] H5] H6].
+  repeat split; auto.
+  - apply Nat.eqb_eq. exact H1.
+  - intros i Hi. rewrite forallb_forall in H2. apply Nat.ltb_lt. auto.
+  - destruct H3 as [H3|H3]; apply Nat.eqb_eq in H3; [left; destruct (m_uv m); [auto|discriminate]|auto].
+  - destruct H4 as [H4|H4]; apply Nat.eqb_eq in H4; [left; destruct (m_nrm m); [auto|discriminate]|auto].
+  - intros Hn. destruct H5 as [H5|H5]; [rewrite Hn in H5; discriminate|]. apply Nat.eqb_eq. exact H5.
+Qed.
+
+Lemma attr_len_wf m : wf_mesh m = true -> attr_len m = length (m_pos m).
+Proof.
+  intros H. destruct (wf_mesh_parts m H) as (_ & _ & Hu & Hn & _). unfold attr_len.
+  destruct (m_pos m); [|reflexivity]. destruct (m_nrm m); [|destruct Hn; [discriminate|auto]].
+  destruct Hu as [->|Hu]; auto.
+Qed.
+
+Lemma content_ok st o m i : offs_ok st o m -> wf_mesh m = true -> In i (m_idx m) ->
+  scontent st (wcorner o m i) = corner_content m i /\
+  corner_ok (length (s_v st)) (length (s_vt st)) (length (s_vn st)) (wcorner o m i) = true.
+Proof.
+  intros (Ov & Ot & On) W Hi. destruct (wf_mesh_parts m W) as (_ & Hlt & Hu & Hn & _).
+  apply Hlt in Hi. unfold scontent, wcorner, corner_content, corner_ok.
+  destruct (slook_at _ _ _ i Ov Hi) as (-> & ->).
+  assert (U : slook (s_vt st) (if nonnil (m_uv m) then Some (zi (i + 1 + ot o)) else None) = nth_error (m_uv m) i
+              /\ oidx_ok (length (s_vt st)) (if nonnil (m_uv m) then Some (zi (i + 1 + ot o)) else None) = true).
+  { destruct Hu as [E|E].
+    - rewrite E. cbn. destruct i; auto.
+    - destruct (nonnil (m_uv m)) eqn:NN.
+      + cbn [oidx_ok]. apply slook_at; auto. lia.
+      + destruct (m_uv m); [cbn; destruct i; auto|discriminate]. }
+  assert (N : slook (s_vn st) (if nonnil (m_nrm m) then Some (zi (i + 1 + on o)) else None) = nth_error (m_nrm m) i
+              /\ oidx_ok (length (s_vn st)) (if nonnil (m_nrm m) then Some (zi (i + 1 + on o)) else None) = true).
+  { destruct Hn as [E|E].
+    - rewrite E. cbn. destruct i; auto.
+    - destruct (nonnil (m_nrm m)) eqn:NN.
+      + cbn [oidx_ok]. apply slook_at; auto. lia.
+      + destruct (m_nrm m); [cbn; destruct i; auto|discriminate]. }
+  destruct U as (-> & ->), N as (-> & ->). auto.
+Qed.
+
+Lemma normalise_id cs :
+  ((forall c, In c cs -> has_uv c = true) \/ (forall c, In c cs -> cuv c = None)) ->
+  ((forall c, In c cs -> has_nrm c = true) \/ (forall c, In c cs -> cnrm c = None)) ->
+  normalise cs = cs.
+Proof.
+  intros Hu Hn. unfold normalise. transitivity (map (fun x => x) cs); [|apply map_id]. apply map_ext_in. intros [[p u] n] Hin.
+  f_equal; [f_equal|].
+  - destruct (forallb has_uv cs) eqn:E; auto. destruct Hu as [Hu|Hu].
+    + assert (forallb has_uv cs = true) by (apply forallb_forall; auto). congruence.
+    + symmetry. apply (Hu _ Hin).
+  - destruct (forallb has_nrm cs) eqn:E; auto. destruct Hn as [Hn|Hn].
+    + assert (forallb has_nrm cs = true) by (apply forallb_forall; auto). congruence.
+    + symmetry. apply (Hn _ Hin).
+Qed.
+
+Lemma corners_normal m : wf_mesh m = true -> normalise (corners m) = corners m.
+Proof.
+  intros W. destruct (wf_mesh_parts m W) as (_ & Hlt & Hu & Hn & _). unfold corners. apply normalise_id.
+  - destruct Hu as [E|E].
+    + right. intros c Hc. apply in_map_iff in Hc. destruct Hc as (i & <- & Hi).
+      unfold corner_content, cuv. cbn. rewrite E. destruct i; reflexivity.
+    + left. intros c Hc. apply in_map_iff in Hc. destruct Hc as (i & <- & Hi).
+      unfold corner_content, has_uv. destruct (nth_error (m_uv m) i) eqn:Q; auto.
+      apply nth_error_None in Q. apply Hlt in Hi. lia.
+  - destruct Hn as [E|E].
+    + right. intros c Hc. apply in_map_iff in Hc. destruct Hc as (i & <- & Hi).
+      unfold corner_content, cnrm. cbn. rewrite E. destruct i; reflexivity.
+    + left. intros c Hc. apply in_map_iff in Hc. destruct Hc as (i & <- & Hi).
+      unfold corner_content, has_nrm. destruct (nth_error (m_nrm m) i) eqn:Q; auto.
+      apply nth_error_None in Q. apply Hlt in Hi. lia.
+Qed.
+
+(* one mesh body, started in a fresh group named after the mesh *)
+Lemma mesh_body_sem st o m d :
+  offs_ok st o m -> wf_mesh m = true ->
+  exists body tg cur, body_lines (wcorner o m) m = Ok body /\
+    (forall rest, vf st (body ++ rest) = vf st rest) /\
+    srun (mk st d (m_name m) [] [] None) body = mk st d (m_name m) (corners m) tg cur /\
+    sclose (mk st d (m_name m) (corners m) tg cur) = obs_written m.
+Proof.
+  intros Ho W. destruct (wf_mesh_parts m W) as (H3 & _ & _ & _ & Hs & Hok).
+  destruct (body_sem st (wcorner o m) (m_idx m) (corner_content m)
+              (fun i Hi => content_ok st o m i Ho W Hi) (m_mats m) d (m_name m) H3 Hs Hok)
+    as (body & tg & cur & Eb & Vb & Rb & Tb).
+  exists body, tg, cur. split; [exact Eb|]. split; [exact Vb|]. split; [exact Rb|].
+  unfold sclose, obs_written. cbn [mk s_nm s_cs s_tg s_cur]. rewrite corners_normal, Tb; auto.
+Qed.
+
+(* ---------- the list of meshes: running offsets as the invariant ---------- *)
+Definition offs_list (st : sstate) (o : offs) (rest : list mesh) : Prop :=
+  exists pp pt pn, s_v st = pp ++ flat_map m_pos rest /\ ov o = length pp /\
+                   s_vt st = pt ++ flat_map m_uv rest /\ ot o = length pt /\
+                   s_vn st = pn ++ flat_map m_nrm rest /\ on o = length pn.
+
+Lemma offs_list_head st o m r : offs_list st o (m :: r) -> offs_ok st o m.
+Proof.
+  intros (pp & pt & pn & E1 & L1 & E2 & L2 & E3 & L3). cbn [flat_map] in *.
+  repeat split; eexists; eexists; eauto.
+Qed.
+Lemma offs_list_tail st o m r : offs_list st o (m :: r) -> wf_mesh m = true -> offs_list st (advance false o m) r.
+Proof.
+  intros (pp & pt & pn & E1 & L1 & E2 & L2 & E3 & L3) W. cbn [flat_map] in *.
+  pose proof (attr_len_wf m W) as A. destruct (wf_mesh_parts m W) as (_ & _ & Hu & Hn & _).
+  exists (pp ++ m_pos m), (pt ++ m_uv m), (pn ++ m_nrm m). unfold advance. cbn [ov ot on orb].
+  rewrite <- !app_assoc, !app_length, A. repeat split; auto; try lia.
+  - destruct Hu as [E|E]; [rewrite E; cbn; lia|]. destruct (m_uv m); cbn in *; lia.
+  - destruct Hn as [E|E]; [rewrite E; cbn; lia|]. destruct (m_nrm m); cbn in *; lia.
+Qed.
+
+Lemma nonempty_but_last_tail m r : nonempty_but_last (m :: r) = true ->
+  nonempty_but_last r = true /\ (r <> [] -> nonnil (m_idx m) = true).
+Proof.
+  destruct r as [|x q]; [cbn; intuition congruence|].
+  cbn [nonempty_but_last]. intros H. apply andb_true_iff in H. destruct H. auto.
+Qed.
+
+Lemma sstep_G st d nm cs tg cur n :
+  sstep (mk st d nm cs tg cur) (G n)
+  = if nonnil cs then mk st (d ++ [sclose (mk st d nm cs tg cur)]) n [] [] None else mk st d n cs tg cur.
+Proof. reflexivity. Qed.
+
+Lemma groups_tail rest : forall o st d nm cs tg cur,
+  offs_list st o rest -> forallb wf_mesh rest = true -> nonempty_but_last rest = true ->
+  (rest <> [] -> nonnil cs = true) ->
+  exists gl, groups_lines false true o rest = Ok gl /\ (forall tl, vf st (gl ++ tl) = vf st tl) /\
+    let st' := srun (mk st d nm cs tg cur) gl in
+    s_done st' ++ [sclose st'] = d ++ [sclose (mk st d nm cs tg cur)] ++ map obs_written rest.
+Proof.
+  induction rest as [|m r IH]; intros o st d nm cs tg cur Ho W Hne Hcs.
+  - exists []. cbn. auto.
+  - cbn [forallb] in W. apply andb_true_iff in W. destruct W as [Wm Wr].
+    destruct (nonempty_but_last_tail m r Hne) as (Hne' & Hm).
+    destruct (mesh_body_sem st o m (d ++ [sclose (mk st d nm cs tg cur)]) (offs_list_head _ _ _ _ Ho) Wm)
+      as (body & tg' & cur' & Eb & Vb & Rb & Cb).
+    destruct (IH (advance false o m) st (d ++ [sclose (mk st d nm cs tg cur)]) (m_name m) (corners m) tg' cur'
+                 (offs_list_tail _ _ _ _ Ho Wm) Wr Hne') as (gl & Eg & Vg & Rg).
+    { intros Hr. apply Hm in Hr. unfold corners. destruct (m_idx m); [discriminate|reflexivity]. }
+    exists ((G (m_name m) :: body) ++ gl). split; [|split].
+    + cbn [groups_lines]. unfold mesh_lines. rewrite Eb. cbn [rbind orb app]. rewrite Eg. reflexivity.
+    + intros tl. cbn [app]. unfold vf in *. cbn [valid_from]. rewrite <- app_assoc, Vb, Vg. reflexivity.
+    + cbn zeta in *. rewrite srun_app. cbn [srun fold_left]. change (fold_left sstep ?l ?s) with (srun s l).
+      rewrite sstep_G, (Hcs ltac:(discriminate)), Rb, Rg, Cb. cbn [map]. now rewrite <- !app_assoc.
+Qed.
+
+(* no mtllib line among the group lines *)
+Lemma lib_names_app a b : lib_names (a ++ b) = lib_names a ++ lib_names b.
+Proof. apply flat_map_app. Qed.
+Lemma lib_faces wc ts : lib_names (map (face_line wc) ts) = [].
+Proof. induction ts as [|[[a b] c] ts IH]; cbn; auto. Qed.
+Lemma lib_mat_lines wc idx mats : forall start body, mat_lines wc idx start mats = Ok body -> lib_names body = [].
+Proof.
+  induction mats as [|[cnt mt] r IH]; intros start body H; cbn [mat_lines] in H.
+  - injection H as <-. reflexivity.
+  - destruct (seg_lines wc idx start cnt) as [fs| |] eqn:Es; try discriminate. cbn [rbind] in H.
+    destruct (mat_lines wc idx (start + 3 * cnt) r) as [rest| |] eqn:Er; try discriminate. cbn [rbind] in H.
+    injection H as <-. unfold lib_names. cbn [flat_map app]. fold (lib_names (fs ++ rest)).
+    rewrite lib_names_app, (IH _ _ Er), app_nil_r.
+    unfold seg_lines in Es. destruct (_ <? _); try discriminate.
+    destruct (tris_of _); try discriminate. injection Es as <-. apply lib_faces.
+Qed.
+Lemma lib_groups multi ms : forall o gl, groups_lines false multi o ms = Ok gl -> lib_names gl = [].
+Proof.
+  induction ms as [|m r IH]; intros o gl H; cbn [groups_lines] in H.
+  - injection H as <-. reflexivity.
+  - destruct (mesh_lines multi o m) as [a| |] eqn:Ea; try discriminate. cbn [rbind] in H.
+    destruct (groups_lines false multi (advance false o m) r) as [b| |] eqn:Eb; try discriminate. cbn [rbind] in H.
+    injection H as <-. rewrite lib_names_app, (IH _ _ Eb), app_nil_r.
+    unfold mesh_lines in Ea. destruct (body_lines (wcorner o m) m) as [body| |] eqn:Ebo; try discriminate.
+    cbn [rbind] in Ea. injection Ea as <-. rewrite lib_names_app.
+    assert (Hb : lib_names body = []).
+    { unfold body_lines in Ebo. destruct (m_mats m).
+      - destruct (tris_of (m_idx m)); try discriminate. injection Ebo as <-. apply lib_faces.
+      - eapply lib_mat_lines; eauto. }
+    rewrite Hb, app_nil_r. destruct (multi || nonnil (m_name m)); reflexivity.
+Qed.
+Lemma lib_vblocks ms : lib_names (flat_map vlines ms) = [].
+Proof.
+  induction ms as [|m r IH]; [reflexivity|]. cbn [flat_map]. rewrite lib_names_app, IH, app_nil_r.
+  unfold vlines. rewrite !lib_names_app.
+  assert (A : forall l, lib_names (map V l) = []) by (induction l; cbn; auto).
+  assert (B : forall l, lib_names (map VT l) = []) by (induction l; cbn; auto).
+  assert (C : forall l, lib_names (map VN l) = []) by (induction l; cbn; auto).
+  now rewrite A, B, C.
+Qed.
+
+Definition libs_of (mtl : option name) : name := match mtl with Some f => f | None => [] end.
+
+(* Part B, headline *)
+Theorem write_sem mtl ms : wf_list ms = true -> mtl <> Some [] ->
+  exists ls, write mtl ms = Ok ls /\ valid ls = true /\ file_groups ls = map obs_written ms /\
+             lib_names ls = libs_of mtl.
+Proof.
+  unfold wf_list. rewrite !andb_true_iff. intros [[Hnn W] Hne] Hmtl.
+  destruct ms as [|m r]; [discriminate|]. clear Hnn.
+  set (ms := m :: r) in *.
+  set (st0 := mkt sinit (flat_map m_pos ms) (flat_map m_uv ms) (flat_map m_nrm ms)).
+  assert (Ho : offs_list st0 o0 ms).
+  { exists [], [], []. repeat split; reflexivity. }
+  pose proof W as W'. unfold ms in W'. cbn [forallb] in W'. apply andb_true_iff in W'. destruct W' as [Wm Wr].
+  destruct (nonempty_but_last_tail m r Hne) as (Hne' & Hm).
+  destruct (mesh_body_sem st0 o0 m [] (offs_list_head _ _ _ _ Ho) Wm) as (body & tg' & cur' & Eb & Vb & Rb & Cb).
+  assert (Hhead : srun sinit (head_lines mtl) = sinit /\ lib_names (head_lines mtl) = libs_of mtl /\
+                  forall tl, valid (head_lines mtl ++ tl) = valid tl).
+  { destruct mtl as [f|].
+    - split; [reflexivity|]. split; [cbn; now rewrite app_nil_r|].
+      intros tl. unfold valid. cbn. destruct f; [congruence|reflexivity].
+    - split; [reflexivity|]. split; [reflexivity|]. intros tl. reflexivity. }
+  destruct Hhead as (Hh1 & Hh2 & Hh3).
+  (* the lines of the groups, and their semantics started after the v blocks *)
+  assert (G' : exists gl, groups_lines false (1 <? length ms) o0 ms = Ok gl /\
+                (forall tl, vf st0 (gl ++ tl) = vf st0 tl) /\
+                let st' := srun st0 gl in s_done st' ++ [sclose st'] = map obs_written ms).
+  { assert (First : forall multi,
+              srun (mk st0 [] [] [] [] None) (if multi || nonnil (m_name m) then [G (m_name m)] else [])
+              = mk st0 [] (m_name m) [] [] None).
+    { intros multi. destruct multi; [reflexivity|]. cbn [orb]. destruct (m_name m); reflexivity. }
+    destruct r as [|x q].
+    - (* a single mesh *) exists ((if false || nonnil (m_name m) then [G (m_name m)] else []) ++ body). split; [|split].
+      + replace (1 <? length ms) with false by reflexivity. unfold ms.
+        change (groups_lines false false o0 [m])
+          with (dor a <- mesh_lines false o0 m; dor b <- Ok []; Ok (a ++ b)).
+        unfold mesh_lines. rewrite Eb. cbn [rbind]. now rewrite app_nil_r.
+      + intros tl. rewrite <- app_assoc. destruct (false || nonnil (m_name m)); cbn [app]; [|apply Vb].
+        unfold vf in *. cbn [valid_from]. apply Vb.
+      + assert (R1 : srun st0 ((if false || nonnil (m_name m) then [G (m_name m)] else []) ++ body)
+                     = mk st0 [] (m_name m) (corners m) tg' cur').
+        { rewrite srun_app. change st0 with (mk st0 [] [] [] [] None) at 1. rewrite First. exact Rb. }
+        cbn zeta. rewrite R1, Cb. reflexivity.
+    - (* several meshes *)
+      destruct (groups_tail (x :: q) (advance false o0 m) st0 [] (m_name m) (corners m) tg' cur'
+                  (offs_list_tail _ _ _ _ Ho Wm) Wr Hne') as (gl & Eg & Vg & Rg).
+      { intros Hr. apply Hm in Hr. unfold corners. destruct (m_idx m); [discriminate|reflexivity]. }
+      exists (((if true || nonnil (m_name m) then [G (m_name m)] else []) ++ body) ++ gl). split; [|split].
+      + replace (1 <? length ms) with true by reflexivity. unfold ms.
+        change (groups_lines false true o0 (m :: x :: q))
+          with (dor a <- mesh_lines true o0 m; dor b <- groups_lines false true (advance false o0 m) (x :: q); Ok (a ++ b)).
+        unfold mesh_lines. rewrite Eb. cbn [rbind]. rewrite Eg. reflexivity.
+      + intros tl. cbn [orb app]. unfold vf in *. cbn [valid_from]. rewrite <- app_assoc, Vb, Vg. reflexivity.
+      + assert (R1 : srun st0 ((if true || nonnil (m_name m) then [G (m_name m)] else []) ++ body)
+                     = mk st0 [] (m_name m) (corners m) tg' cur').
+        { rewrite srun_app. change st0 with (mk st0 [] [] [] [] None) at 1. rewrite First. exact Rb. }
+        cbn zeta in *. rewrite srun_app, R1, Rg, Cb. reflexivity. }
+  destruct G' as (gl & Eg & Vg & Rg).
+  exists (head_lines mtl ++ flat_map vlines ms ++ gl). split; [|split; [|split]].
+  - unfold write, write_gen. rewrite Eg. reflexivity.
+  - rewrite Hh3. unfold valid. rewrite valid_vblocks. cbn [Nat.add].
+    specialize (Vg []). rewrite app_nil_r in Vg. exact Vg.
+  - unfold file_groups. rewrite !srun_app, Hh1, srun_vblocks. exact Rg.
+  - rewrite !lib_names_app, Hh2, lib_vblocks, (lib_groups _ _ _ _ Eg), !app_nil_r. reflexivity.
+Qed.
+
+(* ====================================================================================== *)
+(* Part C: headline theorems and refutation witnesses                                      *)
+(* ====================================================================================== *)
+(* what an observation looks like after its material names went through the writer *)
+Definition gobs_written (g : gobs) : gobs := let '(nm, cs, tg) := g in (nm, cs, map mtag tg).
+Lemma obs_written_obs m : obs_written m = gobs_written (obs m).
+Proof. reflexivity. Qed.
+
+Theorem roundtrip mtl ms : wf_list ms = true -> mtl <> Some [] ->
+  exists ls gs, write mtl ms = Ok ls /\ read ls = Ok (gs, libs_of mtl) /\ map obs gs = map obs_written ms.
+Proof.
+  intros W Hm. destruct (write_sem mtl ms W Hm) as (ls & E & V & S & L).
+  destruct (read_valid ls V) as (gs & R & O & _).
+  exists ls, gs. split; [exact E|]. split; [rewrite R, L; reflexivity|]. rewrite O. exact S.
+Qed.
+
+(* the same, spelled out per group *)
+Theorem roundtrip_groups mtl ms : wf_list ms = true -> mtl <> Some [] ->
+  exists ls gs, write mtl ms = Ok ls /\ read ls = Ok (gs, libs_of mtl) /\ length gs = length ms /\
+    forall k m g, nth_error ms k = Some m -> nth_error gs k = Some g ->
+      m_name g = m_name m /\ corners g = corners m /\
+      tri_mats (m_mats g) = map (fun mt => Some (mat_written mt)) (tri_mats (m_mats m)).
+Proof.
+  intros W Hm. destruct (roundtrip mtl ms W Hm) as (ls & gs & E & R & O).
+  exists ls, gs. split; [exact E|]. split; [exact R|]. split.
+  - rewrite <- (map_length obs gs), O. apply map_length.
+  - intros k m g Hk Hg. apply (map_nth_error obs) in Hg. apply (map_nth_error obs_written) in Hk.
+    rewrite O, Hk in Hg. unfold obs, obs_written in Hg. injection Hg as H1 H2 H3. auto.
+Qed.
+
+Theorem load_save file : valid file = true ->
+  exists gs1 ls gs2,
+    read file = Ok (gs1, lib_names file) /\ map obs gs1 = file_groups file /\
+    write None gs1 = Ok ls /\ valid ls = true /\
+    read ls = Ok (gs2, []) /\ map obs gs2 = map gobs_written (file_groups file).
+Proof.
+  intros V. destruct (read_valid file V) as (gs1 & R1 & O1 & W1).
+  destruct (write_sem None gs1 W1 ltac:(discriminate)) as (ls & E & V2 & S & L).
+  destruct (read_valid ls V2) as (gs2 & R2 & O2 & _).
+  exists gs1, ls, gs2. repeat split; auto.
+  - rewrite R2, L. reflexivity.
+  - rewrite O2, S, <- O1, map_map. apply map_ext. intros m. apply obs_written_obs.
+Qed.
+
+(* ---------- concrete witnesses: the four repaired defects, and what the reader does not support ---------- *)
+Definition t3 : list vec3 := [(0, 0, 0); (1, 0, 0); (0, 1, 0)]%N.
+Definition mesh_plain : mesh :=
+  {| m_name := ["a"%string]; m_idx := [0; 1; 2]; m_pos := t3; m_uv := []; m_nrm := []; m_mats := [] |}.
+Definition mesh_nrm : mesh :=
+  {| m_name := ["b"%string]; m_idx := [2; 1; 0]; m_pos := t3; m_uv := []; m_nrm := t3; m_mats := [] |}.
+
+Lemma shared_offset_refuted :
+  wf_list [mesh_plain; mesh_nrm] = true /\
+  (exists ls, write_pinned None [mesh_plain; mesh_nrm] = Ok ls /\ read ls = Crash) /\
+  (exists ls gs, write None [mesh_plain; mesh_nrm] = Ok ls /\ read ls = Ok (gs, []) /\
+                 map obs gs = map obs_written [mesh_plain; mesh_nrm]).
+Proof.
+  split; [reflexivity|]. split.
+  - eexists. split; [vm_compute; reflexivity|]. vm_compute. reflexivity.
+  - eexists. eexists. split; [vm_compute; reflexivity|]. split; vm_compute; reflexivity.
+Qed.
+
+Definition c1 (v : Z) : corner := (v, None, None, 0%N).
+Definition cn (v : Z) : corner := (v, None, Some 1%Z, 0%N).
+Definition quad : list line := [V (0, 0, 0); V (1, 0, 0); V (0, 1, 0); V (1, 1, 0); VN (0, 0, 1)]%N.
+Definition file_two_groups : list line :=
+  quad ++ [G ["a"%string]; UseMtl ["m1"%string]; F (c1 1) (c1 2) (c1 3);
+           G ["b"%string]; UseMtl ["m2"%string]; F (c1 2) (c1 3) (c1 4)].
+Definition file_default_group : list line :=
+  quad ++ [F (c1 1) (c1 2) (c1 3); G ["a"%string]; F (c1 2) (c1 3) (c1 4)].
+Definition file_mixed_forms : list line :=
+  quad ++ [G ["a"%string]; F (cn 1) (cn 2) (cn 3); F (c1 2) (c1 3) (c1 4)].
+
+(* load, save, load with a given reader configuration *)
+Definition resave (cfg : rcfg) (file : list line) : res (list gobs) :=
+  dor '(gs, _) <- read_gen cfg file;
+  dor ls <- write None gs;
+  dor '(gs', _) <- read_gen cfg ls;
+  Ok (map obs gs').
+
+Lemma group_material_refuted :
+  valid file_two_groups = true /\
+  resave cfg_pinned file_two_groups = Crash /\
+  resave cfg_full file_two_groups = Ok (map gobs_written (file_groups file_two_groups)).
+Proof. split; [reflexivity|]. split; vm_compute; reflexivity. Qed.
+
+Lemma bare_group_refuted :
+  valid file_default_group = true /\
+  resave cfg_f82 file_default_group = Declared /\
+  resave cfg_full file_default_group = Ok (map gobs_written (file_groups file_default_group)).
+Proof. split; [reflexivity|]. split; vm_compute; reflexivity. Qed.
+
+Lemma mixed_forms_refuted :
+  valid file_mixed_forms = true /\
+  resave {| close_at_g := true; bare_g := true; drop_partial := false |} file_mixed_forms = Crash /\
+  resave cfg_full file_mixed_forms = Ok (map gobs_written (file_groups file_mixed_forms)).
+Proof. split; [reflexivity|]. split; vm_compute; reflexivity. Qed.
+
+(* outside the property (the file is not triangulated / uses relative indices): what ReadMesh does *)
+Definition file_quad : list line := quad ++ [Fn [c1 1; c1 2; c1 4; c1 3]].
+Lemma polygon_truncated :
+  valid file_quad = false /\
+  (exists gs, read file_quad = Ok (gs, []) /\ map (fun g => length (corners g)) gs = [3]) /\
+  map (fun g : gobs => length (snd (fst g))) (file_groups file_quad) = [6].
+Proof. split; [reflexivity|]. split; [eexists; split; vm_compute; reflexivity|vm_compute; reflexivity]. Qed.
+
+Definition file_relative : list line := quad ++ [F (c1 (-1)) (c1 (-2)) (c1 (-3))].
+Lemma relative_index_crash : valid file_relative = false /\ read file_relative = Crash.
+Proof. split; vm_compute; reflexivity. Qed.
+
+(* two spellings of the same corner ("1" and "01") are two table entries, with the same content *)
+Definition file_spelling : list line :=
+  quad ++ [F (c1 1) (c1 2) (c1 3); F (1%Z, None, None, 1%N) (c1 3) (c1 4)].
+Lemma spelling_not_merged :
+  valid file_spelling = true /\
+  exists gs, read file_spelling = Ok (gs, []) /\ map (fun g => length (m_pos g)) gs = [5] /\
+             map obs gs = file_groups file_spelling.
+Proof. split; [reflexivity|]. eexists. split; [vm_compute; reflexivity|]. split; vm_compute; reflexivity. Qed.
